@@ -34,7 +34,7 @@ func verifStoppableLB(n int, withPool bool, realPool bool) (*LoadBalancer, []*ve
 	lb.healthChecks.activeTimeout = time.Second
 	for i := 0; i < n; i++ {
 		b := verifBackend(i)
-		b.URL.Host = "127.0.0.1:1"
+		b.URL.Host = verifProbeTarget()
 		lb.strategy.AddBackend(b)
 	}
 	var conns []*verifConn
@@ -77,6 +77,7 @@ func VerifC19Stop(mode int, n int) {
 		atomic.StoreInt32(&stopped, 1)
 	}
 	verifrt.WaitAll()
+	lb.healthCheckWg.Wait() // quiescence: probe goroutines spawned by the tick have finished
 	verifrt.Assert(atomic.LoadInt32(&stopped) == 1, "Stop returns")
 	for _, c := range conns {
 		verifrt.Assert(c.closed, "pooled connections are closed by shutdown")
